@@ -392,6 +392,8 @@ class WSGITask(Task):
                     else:
                         # As per WSGI spec existing headers must be cleared
                         self.response_headers = []
+                        # ... and so must the length they declared
+                        self.content_length = None
                 finally:
                     exc_info = None
 
